@@ -1168,6 +1168,574 @@ impl<'a, 'b> Walker<'a, 'b> {
     }
 }
 
+// ---------------------------------------------------------------------------
+// pass "catalog-roundtrip": constraint BEHAVIOUR must survive a reopen
+// ---------------------------------------------------------------------------
+//
+// Twin A: DDL, populate, drop+open / close()+open, probes.  Twin B: DDL, populate, probes.
+// Probes are chosen so that every declared property is observable (duplicate key, NULL into
+// NOT NULL, omitted DEFAULT column, CHECK violating / satisfying insert, child insert without
+// parent, parent key UPDATE and parent DELETE with a child present, index still used, next
+// AUTO_INCREMENT value, SELECT * of every table).  Purely differential: defective constraint
+// behaviour cancels as long as it is the same before and after the reopen.
+mod roundtrip {
+    use super::*;
+
+    const TYPES: [(&str, &str); 7] = [("int", "INT"), ("bigint", "BIGINT"), ("real", "REAL"), ("text", "TEXT"), ("bool", "BOOL"), ("blob", "BLOB"), ("date", "DATE")];
+    const ACTIONS: [(&str, &str); 4] = [("none", ""), ("restrict", "RESTRICT"), ("cascade", "CASCADE"), ("setnull", "SET NULL")];
+
+    #[derive(Clone, Copy, PartialEq, Eq, Hash, PartialOrd, Ord, Debug)]
+    pub enum Feat {
+        Ty(u8),
+        PkSingle,
+        PkComp,
+        AutoInc,
+        UniqCol,
+        UniqTab,
+        NotNull,
+        DefInt,
+        DefNeg,
+        DefText,
+        DefNull,
+        ChkGt,
+        ChkRange,
+        /// (ON DELETE action, ON UPDATE action) indices into ACTIONS
+        Fk(u8, u8),
+        IdxSec,
+        IdxUniq,
+        IdxComp,
+        IdxPartial,
+        TwoTables,
+    }
+    use Feat::*;
+
+    pub fn all_feats() -> Vec<Feat> {
+        let mut v: Vec<Feat> = (0..7).map(Ty).collect();
+        v.extend([PkSingle, PkComp, AutoInc, UniqCol, UniqTab, NotNull, DefInt, DefNeg, DefText, DefNull, ChkGt, ChkRange]);
+        for d in 0..4 {
+            for u in 0..4 {
+                v.push(Fk(d, u));
+            }
+        }
+        v.extend([IdxSec, IdxUniq, IdxComp, IdxPartial, TwoTables]);
+        v
+    }
+
+    impl Feat {
+        pub fn name(self) -> String {
+            match self {
+                Ty(i) => format!("type-{}", TYPES[i as usize].0),
+                PkSingle => "pk".into(),
+                PkComp => "pk-composite".into(),
+                AutoInc => "auto-increment".into(),
+                UniqCol => "unique-column".into(),
+                UniqTab => "unique-table".into(),
+                NotNull => "not-null".into(),
+                DefInt => "default-int".into(),
+                DefNeg => "default-negative".into(),
+                DefText => "default-text".into(),
+                DefNull => "default-null".into(),
+                ChkGt => "check-gt".into(),
+                ChkRange => "check-range".into(),
+                Fk(d, u) => format!("fk-del:{}-upd:{}", ACTIONS[d as usize].0, ACTIONS[u as usize].0),
+                IdxSec => "index".into(),
+                IdxUniq => "unique-index".into(),
+                IdxComp => "composite-index".into(),
+                IdxPartial => "partial-index".into(),
+                TwoTables => "second-table".into(),
+            }
+        }
+        pub fn parse(s: &str) -> Option<Feat> {
+            all_feats().into_iter().find(|f| f.name() == s)
+        }
+        /// features of one group exclude each other
+        fn group(self) -> u8 {
+            match self {
+                PkSingle | PkComp | AutoInc => 1,
+                Fk(..) => 2,
+                _ => 0,
+            }
+        }
+    }
+
+    pub fn compatible(fs: &[Feat]) -> bool {
+        for g in [1u8, 2] {
+            if fs.iter().filter(|f| f.group() == g).count() > 1 {
+                return false;
+            }
+        }
+        true
+    }
+
+    /// columns of table c contributed by a feature: (name, declaration suffix)
+    fn columns(f: Feat) -> Vec<(&'static str, String)> {
+        match f {
+            Ty(i) => vec![("t", TYPES[i as usize].1.to_string())],
+            PkSingle | AutoInc => vec![],
+            PkComp => vec![("g", "INT".into())],
+            UniqCol => vec![("u1", "INT UNIQUE".into())],
+            UniqTab => vec![("u2", "INT".into())],
+            NotNull => vec![("nn", "INT NOT NULL".into())],
+            DefInt => vec![("d1", "INT DEFAULT 5".into())],
+            DefNeg => vec![("d2", "INT DEFAULT -7".into())],
+            DefText => vec![("d3", "TEXT DEFAULT 'dflt'".into())],
+            DefNull => vec![("d4", "INT DEFAULT NULL".into())],
+            ChkGt => vec![("k1", "INT CHECK (k1 > 0)".into())],
+            ChkRange => vec![("k2", "INT CHECK (k2 >= 0 AND k2 < 10)".into())],
+            Fk(d, u) => {
+                let mut s = "INT REFERENCES p(id)".to_string();
+                if d > 0 {
+                    s.push_str(&format!(" ON DELETE {}", ACTIONS[d as usize].1));
+                }
+                if u > 0 {
+                    s.push_str(&format!(" ON UPDATE {}", ACTIONS[u as usize].1));
+                }
+                vec![("f", s)]
+            }
+            IdxSec => vec![("i1", "INT".into())],
+            IdxUniq => vec![("i2", "INT".into())],
+            IdxComp => vec![("i3a", "INT".into()), ("i3b", "INT".into())],
+            IdxPartial => vec![("i4", "INT".into())],
+            TwoTables => vec![],
+        }
+    }
+
+    /// a value of column `col` for row number n that satisfies every constraint
+    fn valid(fs: &[Feat], col: &str, n: i64) -> String {
+        match col {
+            "id" | "g" | "nn" | "d1" | "d2" | "d4" | "i1" | "i3a" => n.to_string(),
+            "i3b" => (n + 1).to_string(),
+            "u1" => (100 + n).to_string(),
+            "u2" => (200 + n).to_string(),
+            "i2" => (300 + n).to_string(),
+            "i4" => (if n % 2 == 1 { n } else { -n }).to_string(),
+            "d3" => format!("'x{n}'"),
+            "k1" | "k2" => (n % 9 + 1).to_string(),
+            "f" => (if n <= 2 { n } else { 3 }).to_string(),
+            "t" => {
+                let ty = fs.iter().find_map(|f| if let Ty(i) = f { Some(*i) } else { None }).unwrap_or(0);
+                match ty {
+                    0 => n.to_string(),
+                    1 => (10_000_000_000i64 + n).to_string(),
+                    2 => format!("{n}.5"),
+                    3 => format!("'t{n}'"),
+                    4 => (if n % 2 == 1 { "TRUE" } else { "FALSE" }).to_string(),
+                    5 => format!("x'0{}'", n % 10),
+                    _ => format!("'2024-01-0{}'", n % 9 + 1),
+                }
+            }
+            _ => "NULL".into(),
+        }
+    }
+
+    pub struct Schema {
+        pub feats: Vec<Feat>,
+        cols: Vec<String>,
+        pub ddl: Vec<String>,
+        pub populate: Vec<String>,
+        /// (owner feature name, probe name, statement; "EXPLAIN-INDEX <sql>" = does the plan use an index)
+        pub probes: Vec<(String, &'static str, String)>,
+        pub tables: Vec<&'static str>,
+    }
+
+    impl Schema {
+        /// INSERT of row n with every column valid, except the overrides (None = column omitted)
+        fn ins(&self, n: i64, over: &[(&str, Option<String>)]) -> String {
+            let mut cs = vec![];
+            let mut vs = vec![];
+            for c in &self.cols {
+                match over.iter().find(|(k, _)| k == c) {
+                    Some((_, None)) => {}
+                    Some((_, Some(v))) => {
+                        cs.push(c.clone());
+                        vs.push(v.clone());
+                    }
+                    None => {
+                        cs.push(c.clone());
+                        vs.push(valid(&self.feats, c, n));
+                    }
+                }
+            }
+            format!("INSERT INTO c ({}) VALUES ({})", cs.join(","), vs.join(","))
+        }
+
+        pub fn build(feats: &[Feat]) -> Schema {
+            let has = |f: Feat| feats.contains(&f);
+            let has_fk = feats.iter().any(|f| matches!(f, Fk(..)));
+            let mut s = Schema { feats: feats.to_vec(), cols: vec!["id".into()], ddl: vec![], populate: vec![], probes: vec![], tables: vec![] };
+            let mut decls = vec![if has(AutoInc) {
+                "id INT PRIMARY KEY AUTO_INCREMENT".to_string()
+            } else if has(PkSingle) {
+                "id INT PRIMARY KEY".to_string()
+            } else {
+                "id INT".to_string()
+            }];
+            for f in feats {
+                for (c, d) in columns(*f) {
+                    s.cols.push(c.to_string());
+                    decls.push(format!("{c} {d}"));
+                }
+            }
+            if has(PkComp) {
+                decls.push("PRIMARY KEY (id, g)".into());
+            }
+            if has(UniqTab) {
+                decls.push("UNIQUE (u2)".into());
+            }
+            if has_fk {
+                s.ddl.push("CREATE TABLE p(id INT PRIMARY KEY, v INT)".into());
+                s.tables.push("p");
+                s.populate.push("INSERT INTO p (id,v) VALUES (1,10)".into());
+                s.populate.push("INSERT INTO p (id,v) VALUES (2,20)".into());
+                s.populate.push("INSERT INTO p (id,v) VALUES (3,30)".into());
+            }
+            s.ddl.push(format!("CREATE TABLE c({})", decls.join(", ")));
+            s.tables.push("c");
+            if has(IdxSec) {
+                s.ddl.push("CREATE INDEX ci1 ON c(i1)".into());
+            }
+            if has(IdxUniq) {
+                s.ddl.push("CREATE UNIQUE INDEX ci2 ON c(i2)".into());
+            }
+            if has(IdxComp) {
+                s.ddl.push("CREATE INDEX ci3 ON c(i3a, i3b)".into());
+            }
+            if has(IdxPartial) {
+                s.ddl.push("CREATE INDEX ci4 ON c(i4) WHERE i4 > 0".into());
+            }
+            if has(TwoTables) {
+                s.ddl.push("CREATE TABLE d(id INT PRIMARY KEY, w INT)".into());
+                s.tables.push("d");
+                s.populate.push("INSERT INTO d (id,w) VALUES (1,1)".into());
+                s.populate.push("INSERT INTO d (id,w) VALUES (2,2)".into());
+            }
+            let p1 = s.ins(1, &[]);
+            let p2 = s.ins(2, &[]);
+            s.populate.push(p1);
+            s.populate.push(p2);
+            // ---- probes (run after the reopen / non-reopen) ----
+            let mut n = 2i64;
+            let mut next = || {
+                n += 1;
+                n
+            };
+            let mut probes: Vec<(String, &'static str, String)> = vec![];
+            for f in feats {
+                let o = f.name();
+                let mut p = |name: &'static str, sql: String| probes.push((o.clone(), name, sql));
+                match *f {
+                    Ty(_) => {
+                        let k = next();
+                        p("typed-insert", s.ins(k, &[]));
+                        p("typed-lookup", format!("SELECT * FROM c WHERE t = {}", valid(feats, "t", 1)));
+                        p("typed-update", format!("UPDATE c SET t = {} WHERE id = 2", valid(feats, "t", 7)));
+                    }
+                    PkSingle => {
+                        p("duplicate-key-insert", s.ins(1, &[("u1", Some("150".into())), ("u2", Some("250".into())), ("i2", Some("350".into()))]));
+                        p("fresh-key-insert", s.ins(next(), &[]));
+                        p("null-key-insert", s.ins(next(), &[("id", Some("NULL".into()))]));
+                        p("EXPLAIN-pk-lookup", "EXPLAIN-INDEX SELECT * FROM c WHERE id = 1".into());
+                        p("pk-lookup", "SELECT * FROM c WHERE id = 1".into());
+                    }
+                    PkComp => {
+                        p("duplicate-key-insert", s.ins(1, &[("u1", Some("151".into())), ("u2", Some("251".into())), ("i2", Some("351".into()))]));
+                        let k = next();
+                        p("same-id-other-g-insert", s.ins(k, &[("id", Some("1".into()))]));
+                        p("pk-lookup", "SELECT * FROM c WHERE id = 1 AND g = 1".into());
+                    }
+                    AutoInc => {
+                        let k = next();
+                        p("insert-without-id", s.ins(k, &[("id", None)]));
+                        let k = next();
+                        p("insert-without-id-2", s.ins(k, &[("id", None)]));
+                        p("duplicate-key-insert", s.ins(1, &[("u1", Some("152".into())), ("u2", Some("252".into())), ("i2", Some("352".into()))]));
+                    }
+                    UniqCol => {
+                        p("duplicate-insert", s.ins(next(), &[("u1", Some(valid(feats, "u1", 1)))]));
+                        p("distinct-insert", s.ins(next(), &[]));
+                        p("duplicate-update", format!("UPDATE c SET u1 = {} WHERE id = 2", valid(feats, "u1", 1)));
+                    }
+                    UniqTab => {
+                        p("duplicate-insert", s.ins(next(), &[("u2", Some(valid(feats, "u2", 1)))]));
+                        p("distinct-insert", s.ins(next(), &[]));
+                        p("duplicate-update", format!("UPDATE c SET u2 = {} WHERE id = 2", valid(feats, "u2", 1)));
+                    }
+                    NotNull => {
+                        p("null-insert", s.ins(next(), &[("nn", Some("NULL".into()))]));
+                        p("omitted-insert", s.ins(next(), &[("nn", None)]));
+                        p("null-update", "UPDATE c SET nn = NULL WHERE id = 2".into());
+                        p("valid-insert", s.ins(next(), &[]));
+                    }
+                    DefInt | DefNeg | DefText | DefNull => {
+                        let col = columns(*f)[0].0;
+                        let k = next();
+                        p("insert-omitting-column", s.ins(k, &[(col, None)]));
+                        p("read-default", format!("SELECT * FROM c WHERE id = {k}"));
+                    }
+                    ChkGt => {
+                        p("violating-insert", s.ins(next(), &[("k1", Some("0".into()))]));
+                        p("violating-insert-negative", s.ins(next(), &[("k1", Some("-3".into()))]));
+                        p("satisfying-insert", s.ins(next(), &[("k1", Some("1".into()))]));
+                        p("violating-update", "UPDATE c SET k1 = 0 WHERE id = 2".into());
+                    }
+                    ChkRange => {
+                        p("violating-insert-high", s.ins(next(), &[("k2", Some("10".into()))]));
+                        p("violating-insert-low", s.ins(next(), &[("k2", Some("-1".into()))]));
+                        p("satisfying-insert", s.ins(next(), &[("k2", Some("0".into()))]));
+                        p("violating-update", "UPDATE c SET k2 = 10 WHERE id = 2".into());
+                    }
+                    Fk(..) => {
+                        p("child-insert-without-parent", s.ins(next(), &[("f", Some("99".into()))]));
+                        p("child-insert-with-parent", s.ins(next(), &[]));
+                        p("child-update-to-missing-parent", "UPDATE c SET f = 98 WHERE id = 2".into());
+                        p("parent-key-update", "UPDATE p SET id = 11 WHERE id = 1".into());
+                        p("child-rows-after-parent-update", "SELECT * FROM c".into());
+                        p("parent-rows-after-parent-update", "SELECT * FROM p".into());
+                        p("parent-delete", "DELETE FROM p WHERE id = 2".into());
+                        p("child-rows-after-parent-delete", "SELECT * FROM c".into());
+                        p("parent-rows-after-parent-delete", "SELECT * FROM p".into());
+                    }
+                    IdxSec => {
+                        p("EXPLAIN-indexed-equality", "EXPLAIN-INDEX SELECT * FROM c WHERE i1 = 1".into());
+                        p("index-lookup", "SELECT * FROM c WHERE i1 = 1".into());
+                        p("insert", s.ins(next(), &[("i1", Some("1".into()))]));
+                        p("index-lookup-after-insert", "SELECT * FROM c WHERE i1 = 1".into());
+                    }
+                    IdxUniq => {
+                        p("duplicate-insert", s.ins(next(), &[("i2", Some(valid(feats, "i2", 1)))]));
+                        p("distinct-insert", s.ins(next(), &[]));
+                        p("EXPLAIN-indexed-equality", format!("EXPLAIN-INDEX SELECT * FROM c WHERE i2 = {}", valid(feats, "i2", 1)));
+                        p("index-lookup", format!("SELECT * FROM c WHERE i2 = {}", valid(feats, "i2", 1)));
+                    }
+                    IdxComp => {
+                        p("EXPLAIN-indexed-equality", "EXPLAIN-INDEX SELECT * FROM c WHERE i3a = 1 AND i3b = 2".into());
+                        p("index-lookup", "SELECT * FROM c WHERE i3a = 1 AND i3b = 2".into());
+                        p("insert", s.ins(next(), &[("i3a", Some("1".into())), ("i3b", Some("2".into()))]));
+                        p("index-lookup-after-insert", "SELECT * FROM c WHERE i3a = 1 AND i3b = 2".into());
+                    }
+                    IdxPartial => {
+                        p("EXPLAIN-indexed-equality", "EXPLAIN-INDEX SELECT * FROM c WHERE i4 = 1".into());
+                        p("lookup-inside-predicate", "SELECT * FROM c WHERE i4 = 1".into());
+                        p("lookup-outside-predicate", "SELECT * FROM c WHERE i4 = -2".into());
+                        p("insert-outside-predicate", s.ins(next(), &[("i4", Some("-2".into()))]));
+                        p("lookup-outside-predicate-after-insert", "SELECT * FROM c WHERE i4 = -2".into());
+                    }
+                    TwoTables => {
+                        p("second-table-duplicate-key-insert", "INSERT INTO d (id,w) VALUES (1,9)".into());
+                        p("second-table-update", "UPDATE d SET w = w + 1".into());
+                        p("second-table-pk-lookup", "SELECT * FROM d WHERE id = 2".into());
+                    }
+                }
+            }
+            for t in s.tables.clone() {
+                probes.push(("all".into(), if t == "c" { "select-all-c" } else if t == "p" { "select-all-p" } else { "select-all-d" }, format!("SELECT * FROM {t}")));
+                probes.push(("all".into(), if t == "c" { "count-c" } else if t == "p" { "count-p" } else { "count-d" }, format!("SELECT COUNT(*) FROM {t}")));
+            }
+            s.probes = probes;
+            s
+        }
+    }
+
+    pub struct RtRunner {
+        pub scratch: std::path::PathBuf,
+        calib: HashMap<(Vec<Feat>, bool), u64>,
+        pub executions: u64,
+        pub statements: u64,
+        pub index_plans: u64,
+        /// self-test (`--opt plant=1`): the reopened twin forgets ON UPDATE CASCADE
+        pub plant: bool,
+    }
+
+    impl RtRunner {
+        pub fn new(ctx: &Ctx) -> Self {
+            RtRunner { scratch: ctx.scratch.clone(), calib: HashMap::new(), executions: 0, statements: 0, index_plans: 0, plant: ctx.opt("plant").is_some() }
+        }
+
+        fn setup(&mut self, name: &str, s: &Schema, wal: bool) -> Option<TestDb> {
+            self.executions += 1;
+            let t = TestDb::create(&self.scratch, name).ok()?;
+            apply_cfg(&t, Cfg::wal(wal)).ok()?;
+            let _ = t.exec("CREATE TABLE zz(x INT)");
+            for q in s.ddl.iter().chain(s.populate.iter()) {
+                let _ = t.exec(q);
+                self.statements += 1;
+            }
+            Some(t)
+        }
+
+        /// value of the global row-id counter after DDL + populate (see Runner::counter_before); 0 = no compensation needed
+        fn counter(&mut self, s: &Schema, wal: bool) -> u64 {
+            let key = (s.feats.clone(), wal);
+            if let Some(c) = self.calib.get(&key) {
+                return *c;
+            }
+            let mut c = 0;
+            if let Some(mut t) = self.setup("rc", s, wal) {
+                let _ = t.exec("CREATE TABLE cal(x INT)");
+                let _ = t.exec("INSERT INTO cal (x) VALUES (0)");
+                if t.reopen().is_ok() {
+                    for j in 1..=(s.populate.len() as u64 + 3) {
+                        if !t.exec("INSERT INTO cal (x) VALUES (1)").ok() {
+                            c = j;
+                            break;
+                        }
+                    }
+                }
+            }
+            if self.calib.len() > 50_000 {
+                self.calib.clear();
+            }
+            self.calib.insert(key, c);
+            c
+        }
+
+        /// results of DDL+populate (as one block) and of every probe; Err = maintenance failed
+        pub fn run(&mut self, name: &str, s: &Schema, wal: bool, maint: Option<Maint>) -> Result<Vec<Res>, String> {
+            let burn = if maint.is_some() { self.counter(s, wal).saturating_sub(1) } else { 0 };
+            let Some(mut t) = self.setup(name, s, wal) else { return Err("setup failed".into()) };
+            if let Some(m) = maint {
+                let r = if m == Maint::Reopen { t.reopen() } else { t.close_reopen() };
+                r.map_err(|e| format!("{} failed: {e}", m.name()))?;
+                apply_cfg(&t, Cfg::wal(wal)).map_err(|e| format!("pragma after reopen failed: {e}"))?;
+                for _ in 0..burn {
+                    let _ = t.exec("INSERT INTO zz (x) VALUES (0)");
+                }
+            }
+            let mut out = vec![];
+            for (owner, name, sql) in &s.probes {
+                self.statements += 1;
+                let r = if let Some(q) = sql.strip_prefix("EXPLAIN-INDEX ") {
+                    match sqlh::explain(t.db(), q) {
+                        Some(plan) => {
+                            let idx = plan.contains("Index");
+                            if idx {
+                                self.index_plans += 1;
+                            }
+                            Res::Done(if idx { "plan uses an index".into() } else { "plan uses no index".into() })
+                        }
+                        None => Res::Err("EXPLAIN failed".into()),
+                    }
+                } else if self.plant && maint.is_some() && *name == "parent-key-update" && owner.contains("upd:cascade") {
+                    Res::Err("planted: ON UPDATE action lost".into())
+                } else {
+                    bagged(t.exec(sql))
+                };
+                out.push(r);
+            }
+            Ok(out)
+        }
+
+        /// first differing probe of (schema, wal, maint) vs the non-reopened twin: (probe index, expected, observed)
+        pub fn judge(&mut self, s: &Schema, wal: bool, m: Maint, twin: &[Res]) -> Option<(usize, String, String)> {
+            match self.run("rb", s, wal, Some(m)) {
+                Err(e) => Some((usize::MAX, "maintenance operation succeeds".into(), e)),
+                Ok(r) => {
+                    for i in 0..twin.len().max(r.len()) {
+                        match (twin.get(i), r.get(i)) {
+                            (Some(a), Some(b)) if same(a, b) => {}
+                            (a, b) => return Some((i, a.map(|x| x.show()).unwrap_or_default(), b.map(|x| x.show()).unwrap_or_default())),
+                        }
+                    }
+                    None
+                }
+            }
+        }
+    }
+
+    fn probe_id(s: &Schema, i: usize) -> (String, String) {
+        if i == usize::MAX {
+            ("all".into(), "reopen".into())
+        } else {
+            (s.probes[i].0.clone(), s.probes[i].1.to_string())
+        }
+    }
+
+    /// evaluate one schema under wal x {reopen, close_reopen}; report divergences (minimised over the feature set)
+    pub fn check_schema(rt: &mut RtRunner, rep: &mut Reporter, feats: &[Feat]) {
+        let s = Schema::build(feats);
+        for wal in [false, true] {
+            let Ok(twin) = rt.run("ra", &s, wal, None) else { continue };
+            for m in REOPENS {
+                let d = rt.judge(&s, wal, m, &twin);
+                rep.case(vcore::util::hash_of(&(feats, wal, m)), true);
+                rep.add_states((s.ddl.len() + s.populate.len() + s.probes.len() + 1) as u64);
+                rep.add_transitions((s.ddl.len() + s.populate.len() + s.probes.len() + 1) as u64);
+                rep.add_traces_validated(1);
+                rep.count("catalog_roundtrip_runs", 1);
+                rep.count(&format!("maint_{}", m.name()), 1);
+                rep.count("reopens", 1);
+                rep.count(if wal { "runs_wal_on" } else { "runs_wal_off" }, 1);
+                let Some((i, _, _)) = d else {
+                    rep.outcome(&format!("catalog-roundtrip/{}/equal", m.name()));
+                    continue;
+                };
+                rep.outcome(&format!("catalog-roundtrip/{}/diverged", m.name()));
+                // minimise: drop features while the same probe still differs
+                let (owner, pname) = probe_id(&s, i);
+                let mut cur: Vec<Feat> = feats.to_vec();
+                let mut detail = d.clone().unwrap();
+                let mut k = 0;
+                while k < cur.len() {
+                    if cur.len() == 1 || cur[k].name() == owner {
+                        k += 1;
+                        continue;
+                    }
+                    let mut cand = cur.clone();
+                    cand.remove(k);
+                    let cs = Schema::build(&cand);
+                    let still = match rt.run("ra", &cs, wal, None) {
+                        Ok(tw) => rt.judge(&cs, wal, m, &tw).filter(|(j, _, _)| probe_id(&cs, *j) == (owner.clone(), pname.clone())),
+                        Err(_) => None,
+                    };
+                    match still {
+                        Some(dd) => {
+                            cur = cand;
+                            detail = dd;
+                        }
+                        None => k += 1,
+                    }
+                }
+                let kind = cur.iter().map(|f| f.name()).collect::<Vec<_>>().join("+");
+                let sig = format!("{PROP}/{}/{}/catalog:{}/{}", m.name(), Cfg::wal(wal).wal_name(), kind, pname);
+                let ms = Schema::build(&cur);
+                let stmt = if detail.0 == usize::MAX { "reopen".to_string() } else { ms.probes[detail.0].2.clone() };
+                let case = json!({"scenario": "catalog-roundtrip", "features": feats.iter().map(|f| f.name()).collect::<Vec<_>>(), "wal": wal, "maint": m.name(),
+                    "minimal_features": cur.iter().map(|f| f.name()).collect::<Vec<_>>(), "minimal_ddl": ms.ddl, "minimal_populate": ms.populate, "probe": stmt});
+                rep.violation(PROP, "catalog-roundtrip", &sig, || case, &format!("[{stmt}] same as on the twin that was not reopened: {}", detail.1), &format!("[{stmt}] {}", detail.2));
+            }
+        }
+    }
+
+    /// all compatible feature sets of size 1..=k, simplest first
+    pub fn schemas(k: usize) -> Vec<Vec<Feat>> {
+        let all = all_feats();
+        let mut out: Vec<Vec<Feat>> = all.iter().map(|f| vec![*f]).collect();
+        if k >= 2 {
+            for i in 0..all.len() {
+                for j in i + 1..all.len() {
+                    let v = vec![all[i], all[j]];
+                    if compatible(&v) {
+                        out.push(v);
+                    }
+                }
+            }
+        }
+        if k >= 3 {
+            for i in 0..all.len() {
+                for j in i + 1..all.len() {
+                    for l in j + 1..all.len() {
+                        let v = vec![all[i], all[j], all[l]];
+                        if compatible(&v) {
+                            out.push(v);
+                        }
+                    }
+                }
+            }
+        }
+        out
+    }
+}
+
 struct C04;
 
 impl Check for C04 {
@@ -1182,6 +1750,7 @@ impl Check for C04 {
             "statement results are compared by class (rows as bags, affected counts, DDL tag); error texts are not compared",
             "observation directly after a maintenance op = final observation of the prefix history with the op at its end (all prefixes are enumerated)",
             "PRAGMA wal=ON is re-issued after every reopen (pragmas live in process memory only)",
+            "pass catalog-roundtrip: twin A = DDL, populate, drop+open or close()+open, probes; twin B = the same without the reopen; the oracle is the equality of every probe result (class + rows), never the constraint semantics themselves",
             "passes named comp-* re-advance the global row-id counter after a reopen through inserts into a side table (avoids known finding KF-C04-01)",
         ];
         s.cap_quick_s = 90;
@@ -1192,7 +1761,7 @@ impl Check for C04 {
     fn run(&self, ctx: &Ctx, rep: &mut Reporter) {
         // recorded first so that a capped run still carries a sample
         rep.sample(|| json!({"variant": "pkidx", "ops": ["INS1", "UPDALL", "DEL1"], "maint": [{"pos": 2, "op": "close_reopen"}], "cfg": {"wal": true}, "meaning": "CREATE t + index; INSERT 1; close()+open; UPDATE all; DELETE 1; observe — vs. the same without close()+open"}));
-        for c in ["maint_checkpoint", "maint_pragma_wal_checkpoint", "maint_reopen", "maint_close_reopen", "maint_auto_checkpoint", "reopens", "checkpoints_that_moved_frames", "runs_wal_on", "runs_wal_off", "twin_index_plans_for_a_lookup"] {
+        for c in ["catalog_roundtrip_runs", "catalog_roundtrip_index_plans", "maint_checkpoint", "maint_pragma_wal_checkpoint", "maint_reopen", "maint_close_reopen", "maint_auto_checkpoint", "reopens", "checkpoints_that_moved_frames", "runs_wal_on", "runs_wal_off", "twin_index_plans_for_a_lookup"] {
             rep.expect_nonzero(c);
         }
         let ps = passes(ctx);
@@ -1215,6 +1784,26 @@ impl Check for C04 {
                 }
             }
             return;
+        }
+        // pass "catalog-roundtrip" (first: small, and independent of the history passes)
+        if ctx.opt("only").map(|o| o == "catalog-roundtrip").unwrap_or(true) {
+            let k = ctx.tier.pick(2usize, 3usize);
+            let list = roundtrip::schemas(k);
+            rep.bound("catalog_roundtrip", json!({"constraint_kinds": roundtrip::all_feats().iter().map(|f| f.name()).collect::<Vec<_>>(), "max_kinds_per_schema": k, "schemas": list.len(), "maintenance": ["reopen", "close_reopen"], "wal": ["off", "on"]}));
+            let mut rt = roundtrip::RtRunner::new(ctx);
+            for (i, feats) in list.iter().enumerate() {
+                if !ctx.mine(2_000_000 + i as u64) {
+                    continue;
+                }
+                if ctx.expired() {
+                    rep.capped("deadline in pass catalog-roundtrip");
+                    break;
+                }
+                roundtrip::check_schema(&mut rt, rep, feats);
+            }
+            rep.count("catalog_roundtrip_database_executions", rt.executions);
+            rep.count("catalog_roundtrip_index_plans", rt.index_plans);
+            rep.add_transitions(0);
         }
         let mut w = Walker { eng: Engine::new(ctx), rep, case_idx: 0, capped: false };
         for pass in &ps {
@@ -1246,6 +1835,17 @@ impl Check for C04 {
     }
 
     fn replay(&self, ctx: &Ctx, case: &Value, rep: &mut Reporter) {
+        if case["scenario"].as_str() == Some("catalog-roundtrip") {
+            let feats: Vec<roundtrip::Feat> = case["features"].as_array().map(|a| a.iter().filter_map(|x| x.as_str().and_then(roundtrip::Feat::parse)).collect()).unwrap_or_default();
+            if feats.is_empty() {
+                rep.note("replay: case does not parse");
+                return;
+            }
+            // (both WAL settings and both reopen kinds are re-run; the recorded one reproduces its signature)
+            let mut rt = roundtrip::RtRunner::new(ctx);
+            roundtrip::check_schema(&mut rt, rep, &feats);
+            return;
+        }
         let Some(key) = RunKey::from_json(&case["run"]).or_else(|| RunKey::from_json(case)) else {
             rep.note("replay: case does not parse");
             return;
